@@ -45,6 +45,7 @@ def ctorResultCls (tgt : Cls) : Cls :=
   | .intLike => .int
   | .boolLike => .bool
   | .pathLike => .PosixPath
+  | .fieldLike => tgt
   | .noCtor => tgt
 
 theorem ctorResult_issub (tgt : Cls) : issub (ctorResultCls tgt) tgt = true :=
@@ -98,16 +99,17 @@ theorem C20_tables_strSafe_gen (sac : Bool) (o : Cls) (n : Nat) (hg : genOK o n 
 /-- a bare class that accepts a `str` it is not an instance of either builds a path-like atom, cannot be
     constructed at all, is `str`, or is one of the D13 set classes -/
 theorem C20_tables_strSafe_basic (sac : Bool) (c : Cls) (hc : coercibleRT (cfgOf sac) .str c = true) :
-    ctorKind c = .pathLike ∨ ctorKind c = .noCtor ∨ ctorKind c = .strLike ∨ d13Basic.contains c = true := by
+    ctorKind c = .pathLike ∨ ctorKind c = .noCtor ∨ ctorKind c = .strLike ∨ ctorKind c = .fieldLike ∨
+      d13Basic.contains c = true := by
   have h0 : (!(coercibleRT (cfgOf true) .str c || coercibleRT (cfgOf false) .str c)
-      || (ctorKind c == .pathLike || ctorKind c == .noCtor || ctorKind c == .strLike || d13Basic.contains c)) = true :=
+      || (ctorKind c == .pathLike || ctorKind c == .noCtor || ctorKind c == .strLike || ctorKind c == .fieldLike || d13Basic.contains c)) = true :=
     forall_cls (P := fun c => !(coercibleRT (cfgOf true) .str c || coercibleRT (cfgOf false) .str c)
-      || (ctorKind c == .pathLike || ctorKind c == .noCtor || ctorKind c == .strLike || d13Basic.contains c)) (by decide) c
+      || (ctorKind c == .pathLike || ctorKind c == .noCtor || ctorKind c == .strLike || ctorKind c == .fieldLike || d13Basic.contains c)) (by decide) c
   have hc' : (coercibleRT (cfgOf true) .str c || coercibleRT (cfgOf false) .str c) = true := by
     cases sac <;> simp [hc]
   rw [hc'] at h0
   cases h1 : (ctorKind c == .pathLike) <;> cases h2 : (ctorKind c == .noCtor) <;>
-    cases h3 : (ctorKind c == .strLike) <;> cases h4 : d13Basic.contains c <;> simp_all
+    cases h3 : (ctorKind c == .strLike) <;> cases h5 : (ctorKind c == .fieldLike) <;> cases h4 : d13Basic.contains c <;> simp_all
 
 /-- only `str` itself is a subclass of `str` -/
 theorem str_sub_only (c : Cls) (h : issub c .str = true) : c = .str := by
